@@ -7,8 +7,11 @@ Model of `CrackingSession.run` (main actor) and `keypress` (keyboard actor) of
 `PcfgGrammar.omen_generate_guesses` and the session files.
 
 The run is a list of *units* (what the priority queue pops, in order): a plain pre-terminal prints
-its lines without looking at shared state; a Markov pre-terminal looks at `should_exit` after every
-guess.  The only shared variable is `shouldExit` (written by the keyboard actor, read by the main
+its lines without looking at shared state; a Markov pre-terminal asks the OMEN generator for one guess
+at a time, prints it and looks at `should_exit` after every guess; the level ends with one more call of
+the generator that finds nothing.  The yield points of the main actor are: before `pqueue.next()`, before
+every line of a plain pre-terminal, and before every call of the OMEN generator (so a quit request can
+also arrive while the generator is searching in vain after the last string of a level).  The only shared variable is `shouldExit` (written by the keyboard actor, read by the main
 actor); a schedule is a list of actor choices, each choice lets that actor run to its next yield
 point.  Standard input is a script of events; an exhausted script is a pipe that stays open and silent.
 -/
@@ -114,7 +117,6 @@ def mainStep (us : List Unit') (s : St) : St :=
         match u with
         | .plain [] => { s with main := .loopHead (i + 1) }
         | .plain ls => { s with main := .plain (i + 1) ls }
-        | .markov [] => { s with main := .loopHead (i + 1) }
         | .markov ls => { s with main := .omen (i + 1) ls false }
   | .plain i rest =>
     match rest with
@@ -123,17 +125,16 @@ def mainStep (us : List Unit') (s : St) : St :=
     | l :: more => { s with out := s.out ++ [l], main := .plain i more }
   | .omen i rest restored =>
     match rest with
-    | [] => { s with main := .loopHead i }
+    | [] =>
+      -- the generator finds nothing more: the level is finished; a restored level that was not quit again drops the option
+      { s with main := .loopHead i,
+               files := if restored && removesOmenOption && !s.omenExit
+                        then { s.files with omenOpt := false } else s.files }
     | l :: more =>
       let s1 := { s with out := s.out ++ [l] }
       if s1.shouldExit then
         -- `omen_exit = True`, the cracker state is pickled, back to the main loop
         { s1 with omenExit := true, files := { s1.files with omn := some more }, main := .loopHead i }
-      else if more.isEmpty then
-        -- level finished; a restored level that was not quit again drops the option
-        { s1 with main := .loopHead i,
-                  files := if restored && removesOmenOption && !s1.omenExit
-                           then { s1.files with omenOpt := false } else s1.files }
       else { s1 with main := .omen i more restored }
 
 inductive Actor | main | kbd
@@ -153,11 +154,7 @@ def initNew (stdin : List Ev) : St :=
 def initLoad (f : Files) (stdin : List Ev) : St :=
   let pos := f.savPos.getD 0
   match f.omenOpt, f.omn with
-  | true, some rest =>
-    if rest.isEmpty then
-      { main := .loopHead pos, kbd := .atInput, stdin := stdin,
-        files := if removesOmenOption then { f with omenOpt := false } else f }
-    else { main := .omen pos rest true, kbd := .atInput, stdin := stdin, files := f }
+  | true, some rest => { main := .omen pos rest true, kbd := .atInput, stdin := stdin, files := f }
   | _, _ => { main := .loopHead pos, kbd := .atInput, stdin := stdin, files := f }
 
 /-- everything the uninterrupted run prints -/
